@@ -171,6 +171,8 @@ PipelineVerdict(post, children) ==
     \cup V(FailAt >= 0 => ~res.ok /\ res.errkind = "io" /\ res.errno = 2, "C14_error_returned")
     \cup V(FailAt >= 0 => {stages[i].tag : i \in 1..Len(stages)} = ExpectedTags /\ nforks = FailAt + 1, "C14_no_later_stage_started")
     \cup V(FailAt >= 0 => ~(Hung /\ HangExplained), "C14_returns_promptly")
+    \cup V(FailAt >= 0 => ~(Hung /\ HangExplained), "C12_no_self_inflicted_hang")
+    \cup V(FailAt >= 0 /\ cfg.term \in {"capture", "communicate"} => ~(Hung /\ HangExplained), "C01_capture_never_finishes")
     \cup V(FailAt >= 0 /\ ~det => children = "none", "C14_no_child_left_behind")
     \* (C12 says the same of every child a handle -- here the pipeline being started -- has started)
     \cup V(FailAt >= 0 /\ ~det => children = "none", "C12_children_of_failed_pipeline_reaped")
@@ -224,8 +226,16 @@ RaceVerdict(post, children) ==
     \cup V(res.ok /\ Len(stages) = 2, "C08_launch_failed")
     \cup V(children = "none", "C12_reaped")
 
+\* two threads launching in tight loops: every child, whichever thread started it and whatever the other thread was doing
+\* at that moment, starts with a clean signal state; all are reaped
+StressVerdict(post, children) ==
+    V(\A i \in 1..Len(stages) : stages[i].mask_empty /\ ~stages[i].sigpipe_ignored, "C18_clean_signal_state_in_stage")
+    \cup V(res.ok, "C18_launch_failed_under_stress")
+    \cup V(children = "none", "C12_reaped")
+
 Verdict(post, children) ==
   CASE kind = "pipeline" -> PipelineVerdict(Tab(post), children)
+    [] kind = "stress" -> StressVerdict(Tab(post), children)
     [] kind = "race" -> RaceVerdict(Tab(post), children)
     [] OTHER -> HandleVerdict(Tab(post), children)
 Sanity == IF Hung /\ ~HangExplained THEN {"watchdog_without_explanation"} ELSE {}
